@@ -123,6 +123,13 @@ def causes(r: dict) -> dict:
             elif e["ev"] in ("Prune", "BranchDelete") and e.get("rc"):
                 out[ph] = (e["ev"], "failed")
         prev_dirty = e.get("post", {}).get("wtDirty", False)
+    # a worktree was created in that load_git but `worktree remove` was never even attempted, and none of the
+    # recorded windows explains it: the whole cleanup was skipped (e.g. cleanup no longer in a `finally`)
+    for ph in {e["phase"] for e in r["events"] if e["ev"] == "WorktreeAdd" and e.get("rc") == 0}:
+        evs = [e for e in r["events"] if e["phase"] == ph]
+        if ph not in out and not any(e["ev"] == "WorktreeRemove" for e in evs):
+            at = next((e["at"] for e in reversed(evs) if e["ev"] == "Interrupt"), "-")
+            out[ph] = (at, "cleanup-skipped")
     return out
 
 
